@@ -10,7 +10,7 @@ def opUpload (args : List SExp) : Option OpResult := do
     -- `C18_close_result`: nil exactly when the transport finished with a 2xx answer; otherwise the failure — the
     -- server's status when it answered, the transport's error when it did not
     let want :=
-      if fault = "ok" || fault = "early2xx" then "closed nil 0"
+      if fault = "ok" || fault = "early2xx" || fault = "early2xx-stall" then "closed nil 0"
       else if fault = "early" then "closed http-412 0"
       else if fault = "partial" || fault = "partial-json" || fault = "partial-bin" then "closed http-507 0"
       else "closed other 0"
